@@ -311,6 +311,17 @@ pub fn build(
         return Ok(None);
     };
 
+    // Field names must be distinct, the generated `vftable` and padding fields included.
+    for (index, region) in regions.iter().enumerate() {
+        let name = region.name.as_deref().unwrap_or_default();
+        if regions[..index]
+            .iter()
+            .any(|r| r.name.as_deref().map(util::plain_ident) == Some(util::plain_ident(name)))
+        {
+            anyhow::bail!("field `{name}` of type `{resolvee_path}` is defined more than once");
+        }
+    }
+
     // Reborrow the module after resolving regions
     let module = semantic.get_module_for_path(resolvee_path).unwrap();
 
